@@ -1068,6 +1068,9 @@ class TestResult(unittest.TestResult):
             self.stop()
 
     def stopTest(self, test):
+        # A test aborted without any result (e.g. by KeyboardInterrupt)
+        # must not leave the buffers installed.
+        self._restoreStdStreams()
         self.testTearDown()
         # Without clearing, cyclic garbage referenced by the test
         # would be reported in the following test.
